@@ -751,7 +751,7 @@ def check_convergence(R, sh: SolverShape) -> None:
         R.check(guarded, sh.q, key + ':nan-counts-as-settled', 'a movement that is NaN never counts as converged',
                 f'`{text(conv.ast)[:70]}` states the convergence test through a negation (no value moved by tol or more): NaN compares False with `>=`/`>` as well as with `<`, '
                 f'so a check variable whose movement is NaN counts as settled and the period is declared solved; expected all(|movement| < tol), which is False for NaN',
-                where=sh.where(conv))
+                where=sh.where(conv), decided=True)
     # the check values are re-read on every pass (otherwise the saved copy goes stale)
     try:
         cur_name, _prev = value_roles(sh)
